@@ -15,7 +15,12 @@ let q1 = q_of_int 1
 let rec pow2 k = if k = 0 then 1 else 2 * pow2 (k - 1)
 let rec qpow2 e = if e >= 0 then (if e <= 60 then q_of_int (pow2 e) else qmul (qpow2 60) (qpow2 (e - 60)))
                   else qdiv q1 (qpow2 (-e))
-let dy () = let m = int () in let e = int () in qmul (q_of_int m) (qpow2 e)   (* m * 2^e *)
+(* special values of a scripted error norm are carried by two sentinel rationals no computation produces *)
+let sentinel_nan = q_of_frac 12345 7
+let sentinel_inf = q_of_frac 12346 7
+let is_sent s (x : Obj.t) = (qcompare (qof x) s = Eq)
+let dy () = let m = int () in let e = int () in
+  if e = 9999 then (if m = 0 then sentinel_nan else sentinel_inf) else qmul (q_of_int m) (qpow2 e)   (* m * 2^e *)
 let dys n = times n dy
 let qlt a b = (qcompare a b = Lt)
 let qle a b = (qcompare a b <> Gt)
@@ -124,7 +129,7 @@ let fam_rosmock () =
              sYnew = zeros; sInitF = zeros; sK = List.init stages (fun _ -> zeros); sYerr = zeros } in
   let nerr k _ _ _ = mg errs.(min (int_of_nat k) (ne - 1)) in
   let (ltb, leb) = numq_ops in
-  let r = ros_solve numQ ltb leb (m1 qabs) (fun _ -> false) (fun _ -> false) (fun x -> qzero (qof x))
+  let r = ros_solve numQ ltb leb (m1 qabs) (is_sent sentinel_nan) (is_sent sentinel_inf) (fun x -> qzero (qof x))
             absorbed_f pow_inv_f (mg (q_of_int 10)) (mg (q_of_float 1.0e-6))
             vaxpy_q vzero_q vzero_q (add_diag_q mk) (forcing_q mk) (negjac_q mk) inplace
             factor_sep_q (solve_sep_q mk) factor_ip_q (solve_ip_q mk) nerr p (nat_of_int 400) (mg time_step) s0 in
@@ -139,7 +144,8 @@ let fam_rosmock () =
       | EvNegJac y -> out "J"; out_ql y
       | EvFactor (_, _, mm) -> out "LF"; out_ql mm
       | EvSolve rhs -> out "SV"; out_ql rhs
-      | EvAttempt (_, err, _, y, yn, ye) -> out "NE"; out_ql y; out_ql yn; out_ql ye; out (str_of_q (qof err))
+      | EvAttempt (_, err, _, y, yn, ye) -> out "NE"; out_ql y; out_ql yn; out_ql ye;
+        out (if is_sent sentinel_nan err then "NaN" else if is_sent sentinel_inf err then "+Inf" else str_of_q (qof err))
       | EvStep (_, _) -> ()) r.r_trace
   end
 
